@@ -160,6 +160,10 @@ class Ctx:
 
         # once a clause has timed out in this process, later calls get a short leash (the hang is
         # already a violation; waiting the full limit for every further input only burns time and memory)
+        if os.environ.get("VERIF_FUZZ_CHILD"):
+            # inside an Atheris campaign the engine's own per-input timeout watches the call (the input it wrote
+            # out is replayed under this watchdog by the parent afterwards)
+            return fn(*a, **kw)
         key = f"{self.sub}/{clause}"
         if _TIMED_OUT.get(key):
             limit = min(limit, 0.25)
@@ -491,6 +495,17 @@ def _job_fuzz(modname, sub, shard, tier, seed, res, tmpdir, known_sigs, n_overri
         res.known_hits[k] = res.known_hits.get(k, 0) + v
     for sig, msg, case in data["failures"]:
         res.failures.append((sig, msg, case))
+    # inputs the engine itself gave up on (its per-input timeout, or a dying interpreter) are replayed here, under
+    # the ordinary watchdog, through the same oracle
+    for fn in sorted(os.listdir(tmpdir)):
+        if not (fn.startswith("timeout-") or fn.startswith("crash-") or fn.startswith("oom-")):
+            continue
+        blob = open(os.path.join(tmpdir, fn), "rb").read()
+        for case in _decode_fuzz_artifact(sub, tier, blob):
+            v = _run_one(sub, case, res, tmpdir, set(known_sigs), None)
+            if v is not None:
+                res.failures.append((v.sig, v.msg, json.loads(canon(case))))
+        rc = f"{rc} (engine artifact {fn.split('-')[0]} replayed)"
     cov = re.findall(r"#(\d+)\s+\w+\s+cov: (\d+) ft: (\d+)", err)
     done = re.findall(r"#(\d+)\s+DONE\s+cov: (\d+) ft: (\d+)", err)
     last = (done or cov or [("0", "0", "0")])[-1]
@@ -498,9 +513,30 @@ def _job_fuzz(modname, sub, shard, tier, seed, res, tmpdir, known_sigs, n_overri
                               "edges_covered": int(last[1]), "features": int(last[2]),
                               "corpus": "seeded" if (sub.mode == "raw" and shard % 2 == 1) else "empty",
                               "exit": rc}}
-    if isinstance(rc, int) and rc not in (0,) and not data["failures"]:
+    if isinstance(rc, int) and rc not in (0,) and not data["failures"] and not res.failures:
         # libFuzzer died on something the driver did not classify (interpreter crash, OOM)
         raise HarnessError(f"{sub.name}[{shard}]: fuzz driver exit {rc}: {err[-1500:]}")
+
+
+def _decode_fuzz_artifact(sub, tier, blob):
+    """The JSON case(s) behind the bytes of an engine artifact (raw: decode; structured: Hypothesis's own decoding)."""
+    if sub.mode == "raw":
+        case = sub.decode(blob)
+        return [] if case is None else [case]
+    from hypothesis import HealthCheck, given, settings
+
+    got = []
+
+    @settings(database=None, deadline=None, suppress_health_check=list(HealthCheck))
+    @given(sub.strategy(tier))
+    def capture(case):
+        got.append(json.loads(canon(case)))
+
+    try:
+        capture.hypothesis.fuzz_one_input(blob)
+    except Exception:  # noqa
+        pass
+    return got
 
 
 def _job_hypothesis(sub, tier, n, seed_value, res, tmpdir, excluded):
